@@ -9,9 +9,14 @@
     Proved so far: the statement-level classes, in the order the code checks them; the
     specialisation classes (unknown shell, non-command definition for a shell, two definitions
     for the target shell); the cycle class, both directions, together with soundness and
-    completeness of the cycle search on arbitrary definition lists (below).  The classes decided
-    by check_subword_spaces, the regex and DFA ambiguity checks are tied (T1) and judged on
-    planted mistakes by lib/vf/checks/c08.py. *)
+    completeness of the cycle search on arbitrary definition lists; a grammar free of all these
+    classes can only be rejected by check_subword_spaces (below).
+    NOT provable for the code as it is: "subword_spaces g sh = true -> rejected" -- the walk of
+    check_subword_spaces does not see two space-separated literals inside a word when they are
+    reached through nonterminals referenced directly in a call variant
+    (cmd p(<A> <B>); <A> ::= a; <B> ::= b;  is accepted: finding F1 of REPORT-checkproofs).
+    The classes decided by the regex and DFA ambiguity checks are tied (T1) and judged on planted
+    mistakes by lib/vf/checks/c08.py. *)
 From CG Require Import Base.Prelude Model.Ast Model.Check Spec.Choice Spec.Mistakes Proofs.CheckMistakes.
 From CG Require Import Proofs.CheckLemmas Proofs.CheckCycle Proofs.CheckFront Proofs.CheckCycleSpec.
 
